@@ -13,13 +13,15 @@ var propRules = map[string][]ruleSpec{
 		{"R21", "attribute state read-only after Init", ruleR21},
 		{"R24", "defaults replace optional inputs only when absent", ruleOptionalDefaults},
 		{"R25", "contracts of the shared ops helpers this property's operators rely on", ruleHelpers},
+		{"R5", "explicitly skipped (empty-name) inputs arrive as nil: input gathering (M6)", ruleR5},
+		{"R26", "tensors built over Go slices state their shape", ruleExplicitShape},
 	},
 	"C16": {
 		{"R11", "Conv batch-index pairing (K2, K3)", ruleR11},
 		{"R12", "recurrent output reshape provenance and time slice (P6, P7)", ruleR12},
 		{"R10", "Repeat only as a guarded stretch in per-sample operators", ruleR10},
 		{"R21", "attribute state read-only after Init", ruleR21},
-		{"R7t", "Transpose delegates to gorgonia", ruleTermsShapeOps},
+		{"R7t", "Transpose / Softmax / LogSoftmax are the single gorgonia call (no whole-tensor pre-processing)", ruleTermsShapeOps},
 		{"R22", "the broadcast of elementwise operators is not decided by gorgonia's lax Shape.Eq", ruleR22},
 		{"R23", "per-axis broadcast loops visit every axis", ruleR23},
 		{"R25", "contracts of the shared ops helpers this property's operators rely on", ruleHelpers},
@@ -31,6 +33,7 @@ var propRules = map[string][]ruleSpec{
 		{"R21", "attribute state read-only after Init", ruleR21},
 		{"R11o", "kernel-shape readers run after the dilation step (K6)", ruleConvOrdering},
 		{"R11p", "derived paddings are never negative (K7)", ruleConvPadsNonNeg},
+		{"R11f", "extent and coordinate formulas (K8)", ruleConvFormulas},
 		{"R24", "defaults replace optional inputs only when absent", ruleOptionalDefaults},
 		{"R25", "contracts of the shared ops helpers this property's operators rely on", ruleHelpers},
 	},
@@ -41,6 +44,7 @@ var propRules = map[string][]ruleSpec{
 		{"R3", "operands and attribute tensors not modified (E2)", ruleR3},
 		{"R21", "attribute state read-only after Init", ruleR21},
 		{"R24", "defaults replace optional inputs only when absent", ruleOptionalDefaults},
+		{"R26", "tensors built over Go slices state their shape", ruleExplicitShape},
 	},
 	"C03": {
 		{"R7", "operator -> kernel table, operand order, multidirectional mode, boolean truth tables", ruleR7Binary},
@@ -51,6 +55,7 @@ var propRules = map[string][]ruleSpec{
 		{"R20", "rank equalisation of the broadcast helpers", ruleR20Broadcast},
 		{"R3", "operands not modified (E2)", ruleR3},
 		{"R21", "attribute state read-only after Init", ruleR21},
+		{"R20b", "Data() used as a tensor backing passed the scalar wrapper for every admitted type", ruleBackingFromData},
 	},
 	"C10": {
 		{"R7", "operator -> function table, dtype-case/instantiation pairing, PRelu kernel shape", ruleR7Unary},
@@ -60,13 +65,18 @@ var propRules = map[string][]ruleSpec{
 		{"R3", "operands not modified (E2)", ruleR3},
 		{"R21", "attribute state read-only after Init", ruleR21},
 		{"R25", "contracts of the shared ops helpers this property's operators rely on", ruleHelpers},
+		{"R20b", "Data() used as a tensor backing passed the scalar wrapper for every admitted type", ruleBackingFromData},
+		{"R26", "tensors built over Go slices state their shape", ruleExplicitShape},
 	},
 	"C11": {
 		{"R14", "Cast / Constant / ConstantOfShape tables", ruleR14},
+		{"R13", "Constant's value tensor: decoder tables D1-D3 (data_type -> decoder -> typed field / raw reader widths)", ruleR13},
 		{"R20", "source dtypes covered by the scalar wrapper", ruleR20Scalar},
 		{"R21", "attribute state read-only after Init", ruleR21},
 		{"R22", "gorgonia's lax Shape.Eq does not decide shape matching", ruleR22},
 		{"R25", "contracts of the shared ops helpers this property's operators rely on", ruleHelpers},
+		{"R20b", "Data() used as a tensor backing passed the scalar wrapper for every admitted type", ruleBackingFromData},
+		{"R26", "tensors built over Go slices state their shape", ruleExplicitShape},
 	},
 	"C07": {
 		{"R9", "user axes validated (R9a) and normalised (R9b)", ruleR9},
@@ -75,6 +85,8 @@ var propRules = map[string][]ruleSpec{
 		{"R21", "attribute state read-only after Init", ruleR21},
 		{"R22", "gorgonia's lax Shape.Eq does not decide shape matching", ruleR22},
 		{"R25", "contracts of the shared ops helpers this property's operators rely on", ruleHelpers},
+		{"R20b", "Data() used as a tensor backing passed the scalar wrapper for every admitted type", ruleBackingFromData},
+		{"R26", "tensors built over Go slices state their shape", ruleExplicitShape},
 	},
 	"C08": {
 		{"R9", "user axes/indices validated (R9a) and normalised (R9b)", ruleR9},
@@ -86,6 +98,8 @@ var propRules = map[string][]ruleSpec{
 		{"R7t", "Transpose delegates to gorgonia", ruleTermsShapeOps},
 		{"R22", "gorgonia's lax Shape.Eq does not decide shape matching", ruleR22},
 		{"R25", "contracts of the shared ops helpers this property's operators rely on", ruleHelpers},
+		{"R20b", "Data() used as a tensor backing passed the scalar wrapper for every admitted type", ruleBackingFromData},
+		{"R26", "tensors built over Go slices state their shape", ruleExplicitShape},
 	},
 	"C09": {
 		{"R9", "requested axes normalised before reaching gorgonia (R9b; R9a as notes)", ruleR9},
@@ -97,6 +111,8 @@ var propRules = map[string][]ruleSpec{
 		{"R9d", "every requested axis reaches the reduction", ruleAxesPreserved},
 		{"R22", "gorgonia's lax Shape.Eq does not decide shape matching", ruleR22},
 		{"R25", "contracts of the shared ops helpers this property's operators rely on", ruleHelpers},
+		{"R20b", "Data() used as a tensor backing passed the scalar wrapper for every admitted type", ruleBackingFromData},
+		{"R26", "tensors built over Go slices state their shape", ruleExplicitShape},
 	},
 	"C14": {
 		{"R10", "Repeat only as a guarded stretch", ruleR10},
@@ -104,6 +120,7 @@ var propRules = map[string][]ruleSpec{
 		{"R20", "unidirectional rank rule, first operand as is, ones prepended, rank equalisation", ruleR20Broadcast},
 		{"R22", "gorgonia's lax Shape.Eq does not decide shape matching", ruleR22},
 		{"R23", "per-axis loops visit every axis", ruleR23},
+		{"R20b", "Data() used as a tensor backing passed the scalar wrapper for every admitted type", ruleBackingFromData},
 	},
 	"C18": {
 		{"R15", "load path is panic-free", ruleR15},
@@ -154,7 +171,7 @@ var contractBase = []string{
 
 var propDocs = map[string]propDoc{
 	"C03": {
-		Explanation: "R7 (exhaustive over the 12 operators): every call of the shared driver in Apply is driver(inputs[0], inputs[1], K, MultidirectionalBroadcasting) and every success return of Apply is the result of such a call (no second path with another kernel or operand); K's returned term is the gorgonia kernel of the ONNX table applied to (A,B) in order, or - for And/Or/Xor - a closure whose truth table over {0,1}^2 is evaluated statically (0001/0111/0110); the driver's dynamic call op(x,y) has x from A / #0 and y from B / #1 of broadcast(A,B) in order, and the multidirectional mode runs the multidirectional helper; the boolean loop addresses A, B and the output with the same iterator coordinate. R6.T8 float32/float64/int32/int64 (bool) admitted at both positions. R10 Repeat only under extent==1; R23 the per-axis loops are left only when exhausted or with an error; R22 no (tensor.Shape).Eq in the broadcast path; R20 rank equalisation; R3/R21 operands and attribute state untouched. NOT decided: IEEE/wrap-around values, element placement inside gorgonia.",
+		Explanation: "R7 (exhaustive over the 12 operators): every call of the shared driver in Apply is driver(inputs[0], inputs[1], K, MultidirectionalBroadcasting) and every success return of Apply is the result of such a call (no second path with another kernel or operand); K's returned term is the gorgonia kernel of the ONNX table applied to (A,B) in order, or - for And/Or/Xor - a closure whose truth table over {0,1}^2 is evaluated statically (0001/0111/0110); the driver's dynamic call op(x,y) has x from A / #0 and y from B / #1 of broadcast(A,B) in order, and the multidirectional mode runs the multidirectional helper; the boolean loop addresses A, B and the output with the same iterator coordinate. R6.T8 float32/float64/int32/int64 (bool) admitted at both positions. R10 Repeat only under extent==1; R23 the per-axis loops are left only when exhausted or with an error; R22 no (tensor.Shape).Eq in the broadcast path; R20 rank equalisation; R3/R21 operands and attribute state untouched. R20:backing: a Data()-derived value given to tensor.WithBacking on the broadcast path passed the scalar wrapper, which must cover every admitted element type (bool, uint8 included). NOT decided: IEEE/wrap-around values, element placement inside gorgonia.",
 		Assumptions: contractBase,
 		Exhaustive:  true,
 	},
@@ -163,11 +180,11 @@ var propDocs = map[string]propDoc{
 		Assumptions: contractBase,
 	},
 	"C05": {
-		Explanation: "R11 on Conv's methods. K1: every IndexAddr whose list has a known kind (FULL = Shape()/coords/make(len(FULL)), SPATIAL = strides/dilations/kernelShape/FULL[2:]/variadic coords, PADS = pads/make(2*spatial)) is classified by its index kind (CONST, NONSPATIAL = loop < 2, SPATIAL = loop < spatial count / range over a SPATIAL list, SPATIAL+2, SPATIAL+nSpatial, FULL-RANGE, PADS-RANGE) against a legality matrix. K2: per sliding-window function and spatial axis k: window start phi from 0 step strides[k] bounded by Shape(padded)[2+k]; output index start/strides[k] compared with outputShape[2+k] and stored at SetAt position 2+k. K3: batch index = window sample = SetAt position 0 over x.Shape()[0]; kernel[m:m+1] stored at position 1. K4: all AutoPadSetting constants are compared against in Apply's closure (at most one else-class) and Init rejects other strings. K7: every value stored into a paddings list is provably >= 0 (constants, clamps, a - a/2 forms): a negative derived padding makes padInput request a negative dimension (panic). K6: every method reading the kernel's Shape() to size paddings/outputs receives the dilated kernel (the dilation call dominates it). R24: the bias default only replaces an absent bias. R8 attributes; R3 bias and kernel not modified; R21 Apply works on a copy of the operator. NOT decided: the multiply-accumulate, dilation zero insertion, padding by Concat.",
+		Explanation: "R11 on Conv's methods. K1: every IndexAddr whose list has a known kind (FULL = Shape()/coords/make(len(FULL)), SPATIAL = strides/dilations/kernelShape/FULL[2:]/variadic coords, PADS = pads/make(2*spatial)) is classified by its index kind (CONST, NONSPATIAL = loop < 2, SPATIAL = loop < spatial count / range over a SPATIAL list, SPATIAL+2, SPATIAL+nSpatial, FULL-RANGE, PADS-RANGE) against a legality matrix. K2: per sliding-window function and spatial axis k: window start phi from 0 step strides[k] bounded by Shape(padded)[2+k]; output index start/strides[k] compared with outputShape[2+k] and stored at SetAt position 2+k. K3: batch index = window sample = SetAt position 0 over x.Shape()[0]; kernel[m:m+1] stored at position 1. K4: all AutoPadSetting constants are compared against in Apply's closure (at most one else-class) and Init rejects other strings. K8: output extent, dilated extent and dilated coordinate are compared, as polynomials over kind-labelled atoms (modulo + - * algebra; integer division opaque), with floor((X-K+pb+pe)/s)+1, k+(k-1)(d-1), old*d. K7: every value stored into a paddings list is provably >= 0 (constants, clamps, a - a/2 forms): a negative derived padding makes padInput request a negative dimension (panic). K6: every method reading the kernel's Shape() to size paddings/outputs receives the dilated kernel (the dilation call dominates it). R24: the bias default only replaces an absent bias. R8 attributes; R3 bias and kernel not modified; R21 Apply works on a copy of the operator. NOT decided: the multiply-accumulate, dilation zero insertion, padding by Concat.",
 		Assumptions: contractBase,
 	},
 	"C06": {
-		Explanation: "R12 per operator (RNN 1 gate, GRU 3, LSTM 4): P1 block extractors request (gates,3)/(2*gates,2)/(3,2) blocks and return block k as result k; P3 at every gate call the callee's parameter roles are derived from how it feeds its two Gemm helpers (input Gemm = the one receiving the time slice), then W and R must be the same block k of inputs[1]/inputs[2] and the biases the unordered pair {B[k],B[k+gates]} of inputs[3] (or its zero default), every slot used exactly once; P4 LSTM cell update/peepholes/activation roles, GRU state update term (1-z)(.)h + z(.)H_prev, reset-gate forms under linear_before_reset, Gemm helper literals {transB, alpha=beta=1}; P5 loop-carried state appended per step, Y_h/Y_c are Clone()s of the final phi and distinct objects; P2 initial states phi(inputs[5|6], zeros(1,batch,hidden)); P6 reshape argument terms; P7 X.Slice([t,t+1), nil, nil). R8 every handled attribute refused or stored in a field that is read; R9c activations[k] under a rejecting length check; R24: each optional input k (sequence_lens aside) is replaced by its default only on the edge inputs[k]==nil, independently per input. R18, R10, R3, R21, R6.T8. NOT decided: arithmetic of a step, float64 support, numeric whole-vs-split agreement.",
+		Explanation: "R12 per operator (RNN 1 gate, GRU 3, LSTM 4): P1 block extractors request (gates,3)/(2*gates,2)/(3,2) blocks and return block k as result k; P3 at every gate call the callee's parameter roles are derived from how it feeds its two Gemm helpers (input Gemm = the one receiving the time slice), then W and R must be the same block k of inputs[1]/inputs[2] and the biases the unordered pair {B[k],B[k+gates]} of inputs[3] (or its zero default), every slot used exactly once; P4 LSTM cell update/peepholes/activation roles, GRU state update term (1-z)(.)h + z(.)H_prev, reset-gate forms under linear_before_reset, Gemm helper literals {transB, alpha=beta=1}; P5 loop-carried state appended per step, Y_h/Y_c are Clone()s of the final phi and distinct objects; P2 initial states phi(inputs[5|6], zeros(1,batch,hidden)); P6 reshape argument terms; P7 X.Slice([t,t+1), nil, nil). R8 every handled attribute refused or stored in a field that is read; R9c activations[k] under a rejecting length check; R24: each optional input k (sequence_lens aside) is replaced by its default only on the edge inputs[k]==nil, independently per input. R18, R10, R3, R21, R6.T8. R25 helper contracts (ExtractMatrices cuts block i as [i*h,(i+1)*h) into result i; NewSlicer defaults and getters; NElements; Zeros/Ones); R5 M5/M6 explicitly skipped inputs arrive as nil. NOT decided: arithmetic of a step, float64 support, numeric whole-vs-split agreement.",
 		Assumptions: contractBase,
 	},
 	"C10": {
@@ -176,7 +193,7 @@ var propDocs = map[string]propDoc{
 		Exhaustive:  true,
 	},
 	"C11": {
-		Explanation: "R14 (AST + go/types, exhaustive): target switch: 10 numeric codes -> createNewBacking[B, Go(code)], 7 non-numeric codes and default -> error; source switch: 10 dtype cases assert []Go(dtype), default -> error, result WithShape(t.Shape()...); element converter out[i] = R(in[i]); alias-flow: every converter instantiation reachable from Cast.Apply is applied to the asserted backing itself; R20: the scalar wrapper covers every source type Cast's gate admits. Constant: name->getter->type table (value_float GetF float32, value_floats []float32, value_int int64, value_ints []int64, value TensorProto), refusals, one attribute exactly; a tensor backed by an attribute list is given WithShape(len(that list)) (gorgonia infers shape () for a one-element backing). ConstantOfShape: float32(0) default, Len()!=1 refused, non-positive extents refused, dtype from the value tensor. R8; R21 Apply stores into no receiver field (no memoised result); R22 no lax Shape.Eq. NOT decided: nothing structural; conversion semantics are Go's.",
+		Explanation: "R14 (AST + go/types, exhaustive): target switch: 10 numeric codes -> createNewBacking[B, Go(code)], 7 non-numeric codes and default -> error; source switch: 10 dtype cases assert []Go(dtype), default -> error, result WithShape(t.Shape()...); element converter out[i] = R(in[i]); alias-flow: every converter instantiation reachable from Cast.Apply is applied to the asserted backing itself; R20: the scalar wrapper covers every source type Cast's gate admits. Constant: name->getter->type table (value_float GetF float32, value_floats []float32, value_int int64, value_ints []int64, value TensorProto), refusals, one attribute exactly; a tensor backed by an attribute list is given WithShape(len(that list)) (gorgonia infers shape () for a one-element backing). ConstantOfShape: float32(0) default, Len()!=1 refused, non-positive extents refused, dtype from the value tensor. R13 D1-D3: the decoder tables (Constant's value tensor goes through them); R26 list-backed tensors state their shape; R25 helper contracts; R8; R21 Apply stores into no receiver field (no memoised result); R22 no lax Shape.Eq. NOT decided: nothing structural; conversion semantics are Go's.",
 		Assumptions: []string{"go/types models the program faithfully", "Go's numeric conversions are the C-style conversions the property names (language specification)"},
 		Exhaustive:  true,
 	},
@@ -185,7 +202,7 @@ var propDocs = map[string]propDoc{
 		Assumptions: contractBase,
 	},
 	"C07": {
-		Explanation: "R9 (forward taint from the frozen axis-source table: Flatten.axis, Squeeze inputs[1], Unsqueeze inputs[1]): R9a every Go-level use (index, slice bound, selection against a dimension index) of the user value is dominated by a rejecting lower AND upper bound on a value of the same taint set - at the use, at every call site passing the tainted value, on the tainted edges of a merge, or on the err==nil edge of a library callee that validates on every success return; ops.AllInRange-style checkers count two-sided unless a bound is an extreme constant. R9b the value used derives from `x + r` computed under `x < 0`, where r is derived (through parameters, closures and cells) from len(Shape()), Dims() or Shape()[k] of a tensor. R9c axis sets are sorted and a duplicate returns an error. R3 (E2) clone-before-Reshape: no Reshape on borrowed storage in the five operators. R20 a Data() value asserted to a slice type passes the scalar wrapper first. R22 no lax (tensor.Shape).Eq reachable from the five operators (a shape-already-right shortcut through it skips (n) <-> (n,1) reshapes). NOT decided: gorgonia's Reshape contract (row-major order kept, count mismatch rejected), processShape's -1 arithmetic.",
+		Explanation: "R9 (forward taint from the frozen axis-source table: Flatten.axis, Squeeze inputs[1], Unsqueeze inputs[1]): R9a every Go-level use (index, slice bound, selection against a dimension index) of the user value is dominated by a rejecting lower AND upper bound on a value of the same taint set - at the use, at every call site passing the tainted value, on the tainted edges of a merge, or on the err==nil edge of a library callee that validates on every success return; ops.AllInRange-style checkers count two-sided unless a bound is an extreme constant. R9b the value used derives from `x + r` computed under `x < 0`, where r is derived (through parameters, closures and cells) from len(Shape()), Dims() or Shape()[k] of a tensor. R9c axis sets are sorted and a duplicate returns an error. R3 (E2) clone-before-Reshape: no Reshape on borrowed storage in the five operators. R20 a Data() value asserted to a slice type passes the scalar wrapper first. R26 Shape (and every tensor built over a Go slice) states its shape explicitly; R25 helper contracts (NElements, AnyToIntSlice, IfScalarToSlice, HasDuplicates). R22 no lax (tensor.Shape).Eq reachable from the five operators (a shape-already-right shortcut through it skips (n) <-> (n,1) reshapes). NOT decided: gorgonia's Reshape contract (row-major order kept, count mismatch rejected), processShape's -1 arithmetic.",
 		Assumptions: contractBase,
 	},
 	"C08": {
@@ -201,7 +218,7 @@ var propDocs = map[string]propDoc{
 		Assumptions: contractBase,
 	},
 	"C01": {
-		Explanation: "Rules over the interpreter (model.go, opset.go, registry), anchors found by role: M2 the environment map is made per Run and does not escape; M3 caller inputs take precedence over initializers (store ordering / miss guard); M4 per node the operator is the direct result of getter(node.GetOpType()) in the same iteration, its error returns, the node loop visits every node and no iteration skips the application; M5 Init(n) -> gather(n.GetInput(), env) -> ValidateInputs(gathered) -> Apply(validated) -> bind(n.GetOutput(), results, env), each stage fed by the previous one, every error returned; M6 gather: exactly one append per name, \"\" => nil, present => comma-ok entry, absent => error; M7 bind: rejecting length check, env[names[i]] = results[i] same i, all i; M8 result map is fresh, keys from OutputNames(), values non-nil-checked with an error otherwise; M9 no error result dropped in package gonnx; M13 Model fields written only by the constructor; R2 registry constructors return new values, getter hit/miss paths; R4 node output names flow only into len(); R1 no package-level state written. NOT decided: operator values (C03-C11), equality with an independent evaluator.",
+		Explanation: "Rules over the interpreter (model.go, opset.go, registry), anchors found by role: M2 the environment map is made per Run and does not escape; M3 caller inputs take precedence over initializers (store ordering / miss guard) and every entry of Run's inputs is bound (the store runs in every iteration); M4 per node the operator is the direct result of getter(node.GetOpType()) in the same iteration, its error returns, the node loop visits every node and no iteration skips the application; M5 Init(n) -> gather(n.GetInput(), env) -> ValidateInputs(gathered) -> Apply(validated) -> bind(n.GetOutput(), results, env), each stage fed by the previous one, every error returned; M6 gather: exactly one append per name, \"\" => nil, present => comma-ok entry, absent => error; M7 bind: rejecting length check, env[names[i]] = results[i] same i, all i; M8 result map is fresh, keys from OutputNames(), values non-nil-checked with an error otherwise; M9 no error result dropped in package gonnx; M13 Model fields written only by the constructor; R2 registry constructors return new values, getter hit/miss paths; R4 node output names flow only into len(); R1 no package-level state written. NOT decided: operator values (C03-C11), equality with an independent evaluator.",
 		Assumptions: []string{"go/types + go/ssa model the program faithfully", "the rules recognise today's factoring by role; if a role has no bearer the obligation is violated (property needs it) or undecided (only the rule's factoring assumption is gone)"},
 	},
 	"C12": {
@@ -210,7 +227,7 @@ var propDocs = map[string]propDoc{
 		Exhaustive:  true,
 	},
 	"C13": {
-		Explanation: "Rules on the shape validator's SSA/CFG (validator found by role): V1 iterates the declared input shapes; V2 back edges of the input loop only from the initializer-skip edge or the exhausted dimension loop, back edges of the dimension loop only from IsDynamic==true or equality edges, comparison only on the !IsDynamic edge; V3 comma-ok miss => error; V4 rejecting rank equality dominates every read of the received shape; V5 declared[i].Size vs int64(received[i]) at the same i over a full range loop, inequality => error; M1 validator is Run's first call on Run's own parameter, error returned, all other blocks on its nil edge; R3 (E2) no mutation site reachable from the validator writes borrowed or shared storage; V7 IsDynamic <=> dim_value == 0 and Size = dim_value in the shape extractor; V8 InputShapes, InputDimSize and the validator all derive shapes from GetInput(). R3w: the map of initializers the validator consults is written only while the Model is constructed (a Run that stored into it would make later Runs skip validation for those names); R22 no lax Shape.Eq.",
+		Explanation: "Rules on the shape validator's SSA/CFG (validator found by role): V1 iterates the declared input shapes; V2 back edges of the input loop only from the initializer-skip edge or the exhausted dimension loop, back edges of the dimension loop only from IsDynamic==true or equality edges, comparison only on the !IsDynamic edge; V3 comma-ok miss => error; V4 rejecting rank equality dominates every read of the received shape; V5 declared[i].Size vs int64(received[i]) at the same i over a full range loop, inequality => error; M1 validator is Run's first call on Run's own parameter, error returned, all other blocks on its nil edge; R3 (E2) no mutation site reachable from the validator writes borrowed or shared storage; V7 IsDynamic <=> dim_value == 0 and Size = dim_value in the shape extractor; V2 accept side: from the dynamic edge of a dimension no return is reachable (a symbolic dimension accepts any size, also one that differs from another axis with the same name). V8 InputShapes, InputDimSize and the validator all derive shapes from GetInput(). R3w: the map of initializers the validator consults is written only while the Model is constructed (a Run that stored into it would make later Runs skip validation for those names); R22 no lax Shape.Eq.",
 		Assumptions: append([]string{"inputs declared without shape information are outside the property's quantifier"}, contractBase...),
 	},
 	"C18": {
